@@ -43,7 +43,11 @@ class CombiningPatternEncoder(PatternEncoderBase):
         # Check if the source node has 1 connection
         if src[0].conns != [1]:
             # Check if there is only 1 target node and if repeated connections are allowed
-            if len(tgt) == 1 and tgt[0].rep and src[0].rep:
+            # (the collapsed mode encodes a contiguous range of connection amounts)
+            def _is_contiguous(node):
+                return node.max_inf or list(node.conns) == list(range(node.conns[0], node.conns[-1]+1))
+
+            if len(tgt) == 1 and tgt[0].rep and src[0].rep and _is_contiguous(src[0]) and _is_contiguous(tgt[0]):
                 if initialize:
                     self.is_collapsed = True
                 return self.is_collapsed
